@@ -341,6 +341,122 @@ def match_finding(findings, desc):
 
 # --------------------------------------------------------------------------- run + evidence
 
+# --------------------------------------------------------------------------- anchored-line coverage
+
+PINNED = "0766864"
+
+
+def _line_map():
+    """old line (pinned commit, which the anchors of properties.jsonl refer to) -> current line of the working tree"""
+    try:
+        out = subprocess.run(["git", "-C", REPO, "diff", "-U0", PINNED, "--", "svgelements/svgelements.py"],
+                             stdout=subprocess.PIPE, stderr=subprocess.DEVNULL, text=True, timeout=60).stdout
+    except Exception:
+        out = ""
+    hunks = []
+    for m in re.finditer(r"^@@ -(\d+)(?:,(\d+))? \+(\d+)(?:,(\d+))? @@", out, re.M):
+        a, b, c, d = int(m.group(1)), int(m.group(2) or 1), int(m.group(3)), int(m.group(4) or 1)
+        hunks.append((a, b, d))
+
+    def f(line):
+        shift = 0
+        for a, b, d in hunks:
+            if a + max(b, 1) - 1 < line:
+                shift += d - b
+        return line + shift
+    return f
+
+
+def anchor_ranges(prop):
+    """[(mechanism name, [(first, last) in CURRENT line numbers])] from properties.jsonl"""
+    res = []
+    try:
+        with open(os.path.join(VERIF, "properties.jsonl")) as fh:
+            props = [json.loads(l) for l in fh if l.strip()]
+    except OSError:
+        return res
+    f = _line_map()
+    for p in props:
+        if p["id"] != prop:
+            continue
+        for m in p.get("anchors", {}).get("mechanism", []):
+            rs = [(f(int(a)), f(int(b))) for a, b in re.findall(r"(\d+)-(\d+)", m.get("where", ""))]
+            if rs:
+                res.append((m["name"], rs))
+    return res
+
+
+def _executable_lines(path):
+    lines = set()
+    with open(path) as fh:
+        code = compile(fh.read(), path, "exec")
+    stack = [code]
+    while stack:
+        c = stack.pop()
+        for _, _, ln in c.co_lines():
+            if ln:
+                lines.add(ln)
+        stack.extend(k for k in c.co_consts if hasattr(k, "co_lines"))
+    return lines
+
+
+def anchor_probe(prop, modname, cases):
+    """Re-run a spread of cases in this process under a line tracer and report, per anchored mechanism of the
+    property, how many of its executable lines the check's cases execute (what the check actually exercises)."""
+    import importlib
+    ranges = anchor_ranges(prop)
+    if not ranges or not cases:
+        return None
+    mod = importlib.import_module(modname)
+    if hasattr(mod, "worker_init"):
+        mod.worker_init()
+    src = os.path.join(os.path.abspath(REPO), "svgelements", "svgelements.py")
+    wanted = set()
+    for _, rs in ranges:
+        for a, b in rs:
+            wanted.update(range(a, b + 1))
+    hit = set()
+
+    def local(frame, event, arg):
+        if event == "line" and frame.f_lineno in wanted:
+            hit.add(frame.f_lineno)
+        return local
+
+    def tracer(frame, event, arg):
+        if frame.f_code.co_filename == src:
+            if frame.f_lineno in wanted:
+                hit.add(frame.f_lineno)
+            return local
+        return None
+    fn = getattr(mod, "dispatch", None) or mod.check_case
+    t0 = time.time()
+    done = 0
+    sys.settrace(tracer)
+    try:
+        for case in cases:
+            if time.time() - t0 > 12:
+                break
+            try:
+                arm(10.0)
+                fn(case)
+            except BaseException:
+                pass
+            finally:
+                disarm()
+            done += 1
+    finally:
+        sys.settrace(None)
+    execl = _executable_lines(src)
+    rep = []
+    for name, rs in ranges:
+        lines = set()
+        for a, b in rs:
+            lines.update(l for l in range(a, b + 1) if l in execl)
+        rep.append({"mechanism": name, "current_lines": ["%d-%d" % r for r in rs], "executable_lines": len(lines),
+                    "executed_by_probe": len(lines & hit)})
+    return {"cases_traced": done, "mechanisms": rep}
+
+
 class Run:
     def __init__(self, prop, tier, seed, level="model_checking"):
         self.prop, self.tier, self.seed, self.level = prop, tier, seed, level
@@ -351,6 +467,8 @@ class Run:
         self.traces = 0
         self.nontrivial = set()
         self.samples = []
+        self.probe_module = "harness." + prop.lower()
+        self._probe = []          # a spread of replayed cases, re-run under a line tracer by anchor_probe()
         self.violations = []
         self.known = {}
         self.extra = {}
@@ -373,6 +491,8 @@ class Run:
     def record(self, case, result, key=None):
         """result: {"dis": [disagreement dicts], "nontrivial": bool, "class": str, "checked": [clauses]}"""
         self.replayed += 1
+        if self.replayed <= 40 or (self.replayed % 97 == 0 and len(self._probe) < 160):
+            self._probe.append(case)
         if result.get("nontrivial", True):
             self.nontrivial.add(key if key is not None else json.dumps(case, sort_keys=True, default=str))
         for c in result.get("checked", []):
@@ -425,6 +545,13 @@ class Run:
             "known_findings_seen": {k: v["count"] for k, v in self.known.items()},
             "checker_cmd": "./check %s --tier %s" % (self.prop, self.tier),
         }
+        if getattr(self, "probe_module", None):
+            try:
+                ap = anchor_probe(self.prop, self.probe_module, self._probe)
+                if ap:
+                    cov["anchored_lines"] = ap
+            except Exception as e:       # the probe is informational, never a verdict
+                cov["anchored_lines"] = {"error": "%s: %s" % (type(e).__name__, e)}
         cov.update(self.extra)
         ev = {"property_id": self.prop, "tier": self.tier, "seed": self.seed, "level": self.level,
               "coverage": cov, "assumptions": self.assumptions,
